@@ -3,6 +3,7 @@ package c11
 import (
 	"bytes"
 	"fmt"
+	"strings"
 	"testing"
 
 	"github.com/cilium/statedb/part"
@@ -88,3 +89,49 @@ func TestVerif_KeyLengthLimit(t *testing.T) {
 // Race/checkptr slice: the same histories under the race detector (which also enables checkptr for the
 // unsafe node casts) with several histories running concurrently.
 func TestVerifRace_Model(t *testing.T) { run(t, "model-race", false, vkit.N(300, 6000)) }
+
+// A transaction hands out a new internal id with every iterator, clone and commit; nodes carry the id of the transaction that may
+// still edit them in place. After 2^32 ids on one lineage the counter must not meet ids that nodes of older versions still carry.
+func TestVerif_TxnIDWrap(t *testing.T) {
+	r := vkit.Start(t, "C11", "txnid-wrap", "exploration", "one probe: a version is retained, a transaction on it takes 2^32+2 iterators (each uses up one internal transaction id) and then writes; the retained version, its clone and an iterator taken at the start must be unchanged and the new version must hold exactly the model")
+	r.Require("ids_burnt")
+	tree := part.New[uint64]()
+	txn := tree.Txn()
+	txn.Insert([]byte("a"), 1)
+	txn.Insert([]byte("b"), 2)
+	v1 := txn.Commit()
+	w := v1.Txn()
+	w.Insert([]byte("b"), 20) // nodes owned by this transaction
+	clone := w.Clone()
+	it := w.Iterator()
+	const n = 1<<32 + 2
+	for i := 0; i < n; i++ {
+		w.Iterator()
+	}
+	r.Count("ids_burnt", n)
+	w.Insert([]byte("a"), 100)
+	w.Insert([]byte("c"), 3)
+	v2 := w.Commit()
+	dump := func(it part.Iterator[uint64]) string {
+		var b strings.Builder
+		for k, v, ok := it.Next(); ok; k, v, ok = it.Next() {
+			fmt.Fprintf(&b, "%s=%d ", k, v)
+		}
+		return b.String()
+	}
+	for _, c := range []struct{ name, got, want string }{
+		{"the retained version", dump(v1.Iterator()), "a=1 b=2 "},
+		{"the clone taken before the ids were used up", dump(clone.Iterator()), "a=1 b=20 "},
+		{"the iterator taken before the ids were used up", dump(it), "a=1 b=20 "},
+		{"the new version", dump(v2.Iterator()), "a=100 b=20 c=3 "},
+	} {
+		if c.got != c.want {
+			r.Violation("persistence/txnid-wrap", 0, map[string]any{"message": fmt.Sprintf("%s holds [%s], want [%s] (after 2^32+2 transaction ids on one lineage)", c.name, c.got, c.want)})
+		}
+	}
+	if v1.Len() != 2 || v2.Len() != 3 {
+		r.Violation("persistence/txnid-wrap", 0, map[string]any{"message": fmt.Sprintf("Len: retained %d (want 2), new %d (want 3)", v1.Len(), v2.Len())})
+	}
+	r.Case(1, true)
+	r.Finish()
+}
